@@ -34,7 +34,7 @@ func lnHint(x Dec, p int) Dec {
 // underflow may be claimed only when real (C12).
 func init() {
 	drivers["transcN"] = func(g *G) {
-		n := g.pick(500, 12000)
+		n := g.pick(500, 8000)
 		for i := 0; i < n; i++ {
 			p := g.R.between(1, 9)
 			c := Ctx{P: p, Emin: -g.R.between(0, 6), Emax: g.R.between(p, p+6), R: modeNames[g.R.Intn(8)]}
@@ -95,7 +95,7 @@ func init() {
 			ev.H = lnHint(w.x, w.c.P)
 			g.emit(ev, "pow/witness")
 		}
-		n := g.pick(1800, 60000)
+		n := g.pick(1800, 45000)
 		for i := 0; i < n; i++ {
 			p := g.R.between(1, 12)
 			if g.R.Intn(8) == 0 {
